@@ -14,8 +14,9 @@ pub fn verif_panic() -> !
 pub fn verif_format() -> String
 { String::new() }
 
-// float equality as computed by `f64 == f64` in exec code (IEEE), uninterpreted here.
-pub uninterp spec fn feq(a: f64, b: f64) -> bool;
+// float equality as computed by `f64 == f64` in exec code (IEEE): vstd's eq_spec for f64, whose value is
+// left open by vstd (see the axiom below) - nothing is assumed about it here.
+pub open spec fn feq(a: f64, b: f64) -> bool { vstd::std_specs::cmp::PartialEqSpec::eq_spec(&a, &b) }
 
 // TRUSTED(T6): IEEE-754 comparison of two f64 values is a deterministic function of the two values
 // (Verus leaves `obeys_*_spec` for f64 undetermined; this axiom fixes it to true, which makes the exec
